@@ -164,13 +164,32 @@ func genBlkCases(r *Rng, n int, w *bufio.Writer) {
 	}
 }
 
+// blkLine is the abstract-value case line of a block (family blk)
+func blkLine(bl *block.Block) string {
+	var b sb
+	b.add("blk")
+	writeHeader(&b, bl.Header)
+	b.addn(uint64(len(bl.TransactionsData.Transactions)))
+	for _, tx := range bl.TransactionsData.Transactions {
+		writeTx(&b, tx)
+	}
+	return b.String()
+}
+
 func genRawBlkCases(r *Rng, n int, w *bufio.Writer) {
 	for i := 0; i < n; i++ {
 		bl := genBlock(r)
-		ser, _ := bl.SerializeBlock()
+		var ser []byte
 		hl := 0
-		if hs, err := bl.Header.Serialize(); err == nil {
-			hl = len(hs)
+		// the generator must survive a library that panics while serializing: the value itself becomes the case
+		if guarded(func() {
+			ser, _ = bl.SerializeBlock()
+			if hs, err := bl.Header.Serialize(); err == nil {
+				hl = len(hs)
+			}
+		}) != nil {
+			fmt.Fprintln(w, blkLine(bl))
+			continue
 		}
 		var m []byte
 		switch r.Intn(8) {
@@ -343,4 +362,23 @@ func init() {
 	runs["rawblk"] = runRawBlk
 	checks["C01/blk"] = checkC01Blk
 	checks["C01/rawblk"] = checkC01RawBlk
+	checks["C12/blk"] = checkC12BlkObj
+}
+
+// C12 on a block VALUE (reached when the library could not even serialize it for the byte-level families): every
+// operation the decoders' results must survive, on the value as built
+func checkC12BlkObj(t *Toks) string {
+	bl := readBlk(t)
+	if p := guarded(func() {
+		bl.SerializeBlock()
+		bl.Header.Serialize()
+		bl.Header.SerializeForHash()
+		bl.Header.Hash()
+		for _, tx := range bl.TransactionsData.Transactions {
+			followTx(tx)
+		}
+	}); p != nil {
+		return fail("block.value", "panic/"+sanitizeDec(p))
+	}
+	return "OK value"
 }
